@@ -1,8 +1,6 @@
 -- GENERATED: axiom audit of the property theorems of C43
 import SquidModel.Properties.C43
 #print axioms SquidModel.C43.match_iff_union
-#print axioms SquidModel.C43.match_intmax_counterexample
-#print axioms SquidModel.C43.match_intmax_undefined
 #print axioms SquidModel.C43.accepted_ranges_sound
 #print axioms SquidModel.C43.no_match_outside_port_space
 #print axioms SquidModel.C43.invalid_parameter_rejects_list
